@@ -257,9 +257,22 @@ func (v *PacketDslVisitorImpl) VisitFieldDefinitionWithAttribute(ctx *gen.FieldD
 			if padChar == "'\\x00'" {
 				padChar = "'\x00'"
 			}
-			f.Attr.(*model.FixedStringFieldAttribute).Padding = &model.Padding{
-				PadChar: padChar,
-				PadLeft: strings.Contains(fieldAttr.PaddingAttribute().PADDING_ATTR().GetText(), "left"),
+			fs, ok := f.Attr.(*model.FixedStringFieldAttribute)
+			if !ok {
+				v.BinModel.AddSyntaxError(&model.SyntaxError{
+					Line:   f.Line,
+					Column: f.Column,
+					Msg:    "Padding attribute is only allowed on fixed-length string fields, field " + f.Name,
+				})
+				continue
+			}
+			// the attribute may be shared with other fields of the same MetaData type: copy before changing it
+			f.Attr = &model.FixedStringFieldAttribute{
+				Length: fs.Length,
+				Padding: &model.Padding{
+					PadChar: padChar,
+					PadLeft: strings.Contains(fieldAttr.PaddingAttribute().PADDING_ATTR().GetText(), "left"),
+				},
 			}
 		case fieldAttr.TagAttribute() != nil:
 			tagValue := fieldAttr.TagAttribute().DIGITS().GetText()
